@@ -304,7 +304,7 @@ fn run_decrypt(only_update_in_progress_other_phase: bool) -> DecryptRun {
 //@ fn KeySet::key_update_in_progress
 #[kani::proof]
 #[kani::unwind(12)]
-#[kani::stub(core::panic::Location::caller, crate::time::timestamp::aws_s2n_quic_verif_c15_timestamp_helper::verif_c15_stub_location_caller)]
+#[kani::stub(core::panic::Location::caller, crate::time::timestamp::aws_s2n_quic_verif_c15_timestamp_helper::VerifC15Location::caller)]
 fn vq_c15_keyset_decrypt_packet() {
     // every case except "update in progress and the packet carries the other key phase" (next harness)
     let t = run_decrypt(false);
@@ -358,7 +358,7 @@ fn vq_c15_keyset_decrypt_packet() {
 //@ fn KeySet::decrypt_packet
 #[kani::proof]
 #[kani::unwind(12)]
-#[kani::stub(core::panic::Location::caller, crate::time::timestamp::aws_s2n_quic_verif_c15_timestamp_helper::verif_c15_stub_location_caller)]
+#[kani::stub(core::panic::Location::caller, crate::time::timestamp::aws_s2n_quic_verif_c15_timestamp_helper::VerifC15Location::caller)]
 fn vq_c15_keyset_decrypt_previous_key() {
     // a key update is in progress (derivation timer armed: the non-active slot still holds the PREVIOUS key)
     // and the packet carries the previous key phase -- a packet delayed across the update (RFC 9001 6.5)
